@@ -304,3 +304,30 @@ func VerifC10WriterComputes(kind, pos, seed int) {
 	zv.Assert(same, "the computed check digit is not the standard one (patterns differ)")
 	zv.Reach("writercomputes")
 }
+
+// typed from the GS1 General Specifications: EAN-5 add-on parity per check value (G = 1)
+var refEAN5Parity = [10]int{0x18, 0x14, 0x12, 0x11, 0x0C, 0x06, 0x03, 0x0A, 0x09, 0x05}
+
+// VerifC10Ext5: the EAN-5 add-on check value for five free digits is (3(d1+d3+d5) + 9(d2+d4)) mod 10,
+// and each 5-bit parity pattern decodes to the check value the standard assigns, or to nothing.
+func VerifC10Ext5() {
+	d, s := verifDigits(5)
+	sup := NewUPCEANExtension5Support()
+	got := sup.extensionChecksum(s)
+	want := (3*(d[0]+d[2]+d[4]) + 9*(d[1]+d[3])) % 10
+	zv.Assert(got == want, "EAN-5 check value differs from the standard formula")
+	zv.Assert(zv.And(got >= 0, got <= 9), "EAN-5 check value out of range")
+	p := int(zv.Byte() & 0x1f)
+	cd, err := sup.determineCheckDigit(p)
+	w, found := 0, false
+	for i := 9; i >= 0; i-- {
+		if refEAN5Parity[i] == p {
+			w, found = i, true
+		}
+	}
+	zv.Assert((err == nil) == found, "EAN-5 parity pattern accepted iff the standard defines it")
+	if err == nil {
+		zv.Assert(cd == w, "EAN-5 check value for the parity pattern")
+	}
+	zv.Reach("ext5")
+}
